@@ -97,6 +97,7 @@ def run(rep, tier, seed):
     rep.add_tlc(res, "MC_NthDeriv")
     if not res.records:
         raise Machinery("no normal forms emitted")
+    skipped = [0]
     for r in res.records:
         f, n, nf, par = r["f"], r["n"], r["nf"], r["par"]
         fn = getattr(nd, f)
@@ -131,6 +132,9 @@ def run(rep, tier, seed):
         bad = []
         for x, g in zip(pts, got):
             e, mag = evaluate(f, nf, par, x, n)
+            if not (math.isfinite(e) and math.isfinite(mag)):
+                skipped[0] += 1          # SciPy cannot evaluate the generator of the normal form here (hyperu with large a, b near 0): no reference
+                continue
             rep.case((f, pname, n, x), nontrivial=n >= 2)
             if not (abs(g - e) <= 1e-9 * max(mag, abs(e)) + 1e-12):
                 bad.append({"x": x, "got": float(g), "expected": e})
@@ -162,7 +166,10 @@ def run(rep, tier, seed):
     e, mag = evaluate("erf", nf2, r["par"], 0.4, 3)
     if abs(float(nd.erf(numpy.array([0.4]), n=3)[0]) - e) <= 1e-9 * mag + 1e-12:
         raise Machinery("self-test: corrupted normal form not detected")
-    rep.assumptions += ["generator values (exp, sin, cos, sinh, cosh, polygamma, hyperu, powers, e^(+-x^2)) from NumPy/SciPy: order 0 is NumPy/SciPy by the property's definition",
+    if skipped[0] > 40:
+        raise Machinery("too many points without a finite reference value (%d)" % skipped[0])
+    rep.assumptions += ["%d (function, order, point) combinations skipped: SciPy returns no finite value for the generator of the normal form (hyperu with large parameters near 0)" % skipped[0],
+                        "generator values (exp, sin, cos, sinh, cosh, polygamma, hyperu, powers, e^(+-x^2)) from NumPy/SciPy: order 0 is NumPy/SciPy by the property's definition",
                         "tan/tanh are not exported here (they need mpmath inside algopy, absent in /venv) and are not in the property's list"]
     return rep.finish("one case = (function, parameters, order n, point); normal forms for every n <= %d from TLC; non-trivial = n >= 2" % maxn,
                       {"exhaustive": False, "max_order": maxn})
